@@ -73,6 +73,9 @@ type Ctx struct {
 	Repo string
 	fset *token.FileSet
 	pkgs map[string][]*ast.File
+	// pins (pins.go): the module whose sites are being emitted, and every function FindFunc found for it
+	curMod  string
+	touched map[string]map[pinRec]bool
 }
 
 func newCtx(repo string) *Ctx {
@@ -103,7 +106,8 @@ func (c *Ctx) files(pkg string) ([]*ast.File, error) {
 		if skipByBuildTag(string(src)) {
 			continue
 		}
-		f, err := parser.ParseFile(c.fset, filepath.Join(dir, n), src, parser.SkipObjectResolution)
+		// object resolution is on: pins.go renames locals scope-aware through Ident.Obj
+		f, err := parser.ParseFile(c.fset, filepath.Join(dir, n), src, 0)
 		if err != nil {
 			return nil, err
 		}
@@ -180,6 +184,7 @@ func (c *Ctx) FindFunc(pkg, name string) (*ast.FuncDecl, error) {
 	if len(found) > 1 {
 		return nil, fmt.Errorf("function %s ambiguous in %s", name, pkg)
 	}
+	c.notePin(pkg, name)
 	return found[0], nil
 }
 
@@ -1094,6 +1099,9 @@ type modReport struct {
 }
 
 func generate(repo, outDir string) (map[string]*modReport, error) {
+	if *apiFuncs != "" {
+		listAPIFuncs(repo, *apiFuncs) // pins.go; prints and exits
+	}
 	c := newCtx(repo)
 	byMod := map[string][]*Site{}
 	var mods []string
@@ -1117,7 +1125,10 @@ func generate(repo, outDir string) (map[string]*modReport, error) {
 		b.WriteString("import Juniper.Facts\nset_option linter.unusedVariables false\n\nnamespace Juniper.Gen." + m + "\nopen Juniper.Facts\n\n")
 		consts := map[string]string{}
 		names := map[string]bool{}
+		c.curMod = m
+		var sitePkgs []string
 		for _, s := range byMod[m] {
+			sitePkgs = append(sitePkgs, s.Pkg)
 			r.Sites++
 			if names[s.Name] {
 				r.Errors = append(r.Errors, fmt.Sprintf("%s: duplicate definition name", s.Name))
@@ -1140,6 +1151,14 @@ func generate(repo, outDir string) (map[string]*modReport, error) {
 			b.WriteString("\n")
 		}
 		b.WriteString("end Juniper.Gen." + m + "\n")
+		c.curMod = ""
+		// pins.go: Pin<m> (or, with -pin, the committed expectations; then nothing else is written)
+		if err := c.emitPins(m, sitePkgs, outDir, rep); err != nil {
+			return nil, err
+		}
+		if *pinMode {
+			continue
+		}
 		path := filepath.Join(outDir, m+".lean")
 		old, _ := os.ReadFile(path)
 		if string(old) != b.String() {
